@@ -202,7 +202,7 @@ def _mid(a: Any, b: Any, itype: str) -> Any:
 
 
 SL_VARIANTS = ["cont-inc", "cont-dec", "disjoint-images", "discontinuous", "mixed-sign", "gaps",
-               "overlap", "cont-inc-flat"]
+               "overlap", "cont-inc-flat", "cont-dec-flat", "cont-dec-flat-first"]
 JUNCTIONS = [("closed", "closed"), ("open", "closed"), ("closed", "open"), ("nointerval", "open"),
              ("open", "nointerval")]
 
@@ -226,10 +226,13 @@ def scalelinear(r: random.Random, itype: str, ptype: str, k: int, nsc: int, vari
         if variant == "overlap" and i > 0:
             lo_v = b[i] - (2 if itype in INTS else 1.5)
         sc: J = {"lo": lim(lo_v, lo_kind, i % 2 == 0), "hi": lim(hi_v, hi_kind, i % 2 == 1)}
-        if variant in ("cont-inc", "cont-dec", "cont-inc-flat"):
-            sign = -1 if variant == "cont-dec" else 1
+        if variant in ("cont-inc", "cont-dec", "cont-inc-flat", "cont-dec-flat",
+                       "cont-dec-flat-first"):
+            sign = -1 if variant.startswith("cont-dec") else 1
             n1 = sign * [1, 2, 3, 1, 5, 2][(k + i) % 6]
-            if variant == "cont-inc-flat" and i == 1:
+            if variant in ("cont-inc-flat", "cont-dec-flat") and i == 1:
+                n1 = 0
+            if variant == "cont-dec-flat-first" and i == 0:
                 n1 = 0
             if prev is None:
                 n0 = OFFSETS[k % len(OFFSETS)]
